@@ -81,6 +81,8 @@ def cases(rng, tier, X):
                 ops.append('band heard 1')
         out.append(('tick%d' % k, ops))
     # universal automata schedule (all public calls, missing objects, near-colliding keys, bridged frames, every deadline): this check's predicate on it
+    # one kind of call repeated hundreds of times (run lengths, counters, thresholds), then the consequences
+    out += auto.soak_cases(rng, tier)
     for k in range(150 if tier == 'quick' else 6000):
         out.append(('au%d' % k, auto.schedule(rng)))
         if k % 3 == 0:
